@@ -5048,6 +5048,9 @@ class Entity(object, metaclass=EntityMeta):
         cache = obj._session_cache_
         assert cache is not None and cache.is_alive
         with cache.flush_disabled():
+            if obj._subclasses_ and obj in cache.seeds[obj._pk_attrs_]:
+                # known by primary key only: the real class may be a subclass with relationships of its own
+                obj._load_()
             get_val = obj._vals_.get
             undo_list = []
             objects_to_save = cache.objects_to_save
